@@ -24,6 +24,7 @@ import (
 
 	"verifharness/kit"
 	"verifharness/refmodel"
+	"verifharness/simnet"
 )
 
 type TPeer struct {
@@ -555,7 +556,9 @@ func (m *tableMachine) checkC06(pre, post dht.VerifTableSnapshot, evs []tev, op 
 			newKeys = append(newKeys, k)
 		}
 	}
-	sort.Slice(newKeys, func(i, j int) bool { return newKeys[i].addr+string(newKeys[i].id[:]) < newKeys[j].addr+string(newKeys[j].id[:]) })
+	sort.Slice(newKeys, func(i, j int) bool {
+		return newKeys[i].addr+string(newKeys[i].id[:]) < newKeys[j].addr+string(newKeys[j].id[:])
+	})
 	admittedByResponse := map[int]bool{} // bucket -> a responder was admitted there
 	for _, k := range newKeys {
 		e := postIdx[k]
@@ -579,7 +582,9 @@ func (m *tableMachine) checkC06(pre, post dht.VerifTableSnapshot, evs []tev, op 
 			goneKeys = append(goneKeys, k)
 		}
 	}
-	sort.Slice(goneKeys, func(i, j int) bool { return goneKeys[i].addr+string(goneKeys[i].id[:]) < goneKeys[j].addr+string(goneKeys[j].id[:]) })
+	sort.Slice(goneKeys, func(i, j int) bool {
+		return goneKeys[i].addr+string(goneKeys[i].id[:]) < goneKeys[j].addr+string(goneKeys[j].id[:])
+	})
 	for _, k := range goneKeys {
 		e := preIdx[k]
 		m.droppedEntry = true
@@ -1060,7 +1065,7 @@ func runTable(sc TableSc, c *kit.Case, clause string) *kit.Violation {
 			}
 			evs = append(evs, pev)
 		case "TM":
-			go m.sv.S.TableMaintainer()
+			simnet.Go(m.sv.S.TableMaintainer)
 			what += " (one TableMaintainer pass)"
 		}
 		if err := m.sv.C.Quiesce(barrierTimeout); err != nil {
